@@ -263,6 +263,24 @@ class FullTree(Model):
         return FullCopy(self.env)
 
 
+class NodeList(SymSeq):
+    """the list `tree.nodes` returns (a fresh list per read): `remove` of a clone whose position is known drops exactly that entry"""
+
+    def __init__(self, env, key, length, elem):
+        SymSeq.__init__(self, key, length, elem)
+        self.env = env
+
+    def m_remove(self, I, x):
+        pos = self.env.get("positions", {}).get(I.to_num(x).key()) if not isinstance(x, (str, tuple)) else None
+        if pos is None or self.tail:
+            raise Unsupported("list.remove of a value whose position in the node list is not known")
+        P = I.P
+        P.assume(z3.And(P.z(pos) >= 0, P.z(pos) < P.z(self.core_len)), "a top-level clone is one of the clones")
+        old_elem, zp = self.elem, P.z(pos)
+        self.core_len = self.core_len - 1
+        self.elem = lambda i: alg.z3atom(z3.If(P.z(i) < zp, P.z(old_elem(i)), P.z(old_elem(i + 1))))
+
+
 class FullCopy(Model):
     py_classes = ("Tree",)
 
@@ -274,7 +292,25 @@ class FullCopy(Model):
         if self.pruned:
             return self.env["remaining"]
         K = self.env["K"]
-        return SymSeq("nodes(x)", K, lambda i: alg.raw_app("node_x", i, sort="Int"))
+        return NodeList(self.env, "nodes(x)", K, lambda i: alg.raw_app("node_x", i, sort="Int"))
+
+    def a_roots(self, I):
+        # the top-level clones: R of the K clones (1 <= R <= K for K >= 1), each at some position of the node list
+        P, env = I.P, self.env
+        R = alg.sym("R_x", "Int")
+        P.assume(z3.And(P.z(R) >= 0, P.z(R) <= P.z(env["K"]), z3.Implies(P.z(env["K"]) >= 1, P.z(R) >= 1)), "wf(tree): every clone hangs under a top-level clone")
+
+        def elem(i):
+            pos = alg.raw_app("rootpos_x", i, sort="Int")
+            v = alg.raw_app("node_x", pos, sort="Int")
+            env.setdefault("positions", {})[v.key()] = pos
+            return v
+
+        def facts(I_, i):
+            pos = alg.raw_app("rootpos_x", i, sort="Int")
+            return [I_.P.z(pos) >= 0, I_.P.z(pos) < I_.P.z(env["K"])]
+
+        return SymSeq("roots(x)", R, elem, facts)
 
     def m_get_subtree(self, I, root):
         self.env["subtree_root"] = root
